@@ -61,7 +61,7 @@ CHECKS = {
             "Status semantics of Bitcoin Core's BlockStatus; one data-bearing competitor class per index so that attribution is exact."),
     "C07": ("exploration", "reference-model monitor over bounded-exhaustive and random spend histories (row multiset of real unspentcsvdump runs)",
             "DESIGN.md §4 C07",
-            "All event sequences of <=4 (quick) / <=5 (thorough) events over a 10-letter alphabet, in every split over <=3 blocks, packed as "
+            "All event sequences of <=4 (quick) / <=5 (thorough) events over an 11-letter alphabet, in every split over <=3 blocks, packed as "
             "independent lanes into real chains, x ranges x 3 coins, plus random long histories: header, row multiset, no duplicates and totals "
             "must equal the model UTXO set.",
             "UTXO semantics as stated in the property; addresses from the C05/C06 reference for pinned script shapes only."),
